@@ -32,6 +32,13 @@ let handle line =
          | Rer er -> Buffer.add_string buf ("ERR " ^ err_class er ^ " " ^ err_detail er ^ " | ")) in
     go empty_graph ops;
     Buffer.contents buf
+  | "H" ->
+    let fuel = nat_of_int (next_int st) in
+    let e = next_env st in
+    let ops = next_list st next_op in
+    (match grun fuel e empty_graph ops with
+     | Rok g -> b2s (coherent_b g [])
+     | Rer _ -> "E")
   | c -> failwith ("bad command " ^ c)
 
 let () = iter_lines handle
